@@ -1,6 +1,6 @@
 (* C16 -- compilation is deterministic.  Pinned statements only. *)
 From Coq Require Import String List NArith Bool Permutation.
-From Sylt Require Import Det.Consumers Det.ConsumersProofs Det.DocHashSites Det.DocKeyTypes Det.HashKeys Gen.GenHashSites.
+From Sylt Require Import Det.Consumers Det.ConsumersProofs Det.DocHashSites Det.DocKeyTypes Det.HashKeys Det.DocEnvSites Gen.GenHashSites.
 Import ListNotations.
 
 Fixpoint sites_eqb (a : list site) (b : list (string * string * string * string)) : bool :=
@@ -103,3 +103,16 @@ Print Assumptions C16_key_types_consistent.
 Print Assumptions C16_contains_spec.
 Print Assumptions C16_duplicate_verdict_independent_of_hash.
 Print Assumptions C16_inconsistent_hash_changes_the_verdict.
+
+(* ---- nothing but the sources is read ----
+   The places where the five crates (and the macro crate) touch the clock, the environment, the command line, the
+   current directory, directory listings, process / thread identity, random state, addresses or process-wide mutable
+   state are regenerated from /repo on every run and must be exactly the reviewed ones; every reviewed one is the
+   driver's argument parsing or feature-gated profiling code. *)
+Theorem C16_env_sites_covered : env_sites_eqb doc_env_sites GenHashSites.env_sites = true.
+Proof. vm_compute. reflexivity. Qed.
+
+Theorem C16_env_sites_harmless : forallb env_site_harmless doc_env_sites = true.
+Proof. vm_compute. reflexivity. Qed.
+Print Assumptions C16_env_sites_covered.
+Print Assumptions C16_env_sites_harmless.
